@@ -1,7 +1,7 @@
 """C19 configuration for ./check (see checks/propcfg.py for the keys)."""
 CFG = {
     "modules": ["VaxisModel.Props.C19", "VaxisModel.Props.C19Tie", "VaxisModel.Witness.F49", "VaxisModel.Witness.F50", "VaxisModel.Witness.F119"],
-    "extractors": ["C19"],
+    "extractors": ["C19", "C11"],
     "drivers": ["C19"],
     "stateful": True,
     "trivial_prefix": ("-", "idx=0\t"),
